@@ -134,6 +134,18 @@ def gen_A(key, op):
         if len(parts) < 2:
             parts = [T // 2, T - T // 2]
         scn["time_chunks"] = parts
+        if rng.random() < 0.5 and op not in ("dekad", "lroo", "croo"):
+            # focus: a time chunk that holds nothing but steps without valid observations
+            cube = S.j2arr(scn["cube"])
+            if cube.dtype.kind == "f" or True:
+                k = rng.randrange(len(parts))
+                a = sum(parts[:k])
+                fill = scn["nodata"]
+                if op == "autocorr" and scn["params"].get("float"):
+                    fill = np.nan
+                cube[a : a + parts[k], :, :] = fill
+                scn["cube"] = S.arr2j(cube)
+                scn["pattern"] = str(scn.get("pattern")) + "+empty-chunk"
     elif r < 0.24 and any(b == "dask" for b in scn["secondary_backing"].values()):
         scn["secondary_chunks"] = {
             name: {"y": S.composition(rng, Y), "x": S.composition(rng, X)}
@@ -147,11 +159,16 @@ def gen_A(key, op):
         p2["chunks"] = {"y": S.composition(rng, Y), "x": S.composition(rng, X)} if rng.random() < 0.5 else scn["chunks"]
         p2["secondary_backing"] = dict(scn["secondary_backing"]) if set(p2["secondary"]) == set(scn["secondary"]) else p2["secondary_backing"]
         if rng.random() < 0.5:
-            # identical parameters, different data: what a too-coarse cache / task name would confuse
+            # focus: identical parameters, rasters, chunking and naming, different data -- what a
+            # too-coarse cache / dask task name would confuse
             # (parameters and secondary rasters travel together: zone ids must stay < nz)
             p2["params"] = json.loads(json.dumps(scn["params"]))
             p2["secondary"] = json.loads(json.dumps(scn["secondary"]))
             p2["secondary_backing"] = dict(scn["secondary_backing"])
+            p2["secondary_order"] = dict(scn.get("secondary_order") or {})
+            p2["chunks"] = scn["chunks"]
+            if op == "zonal_mean":
+                scn["params"]["name"] = p2["params"]["name"] = "zm"
         scn["pair"] = p2
     cfg = runner.gen_config(rng)
     return rng, scn, cfg
@@ -408,17 +425,20 @@ def job_op(job):
             except Exception as e:  # noqa: BLE001
                 agg.d["harness"].append(f"probe {f['id']}: {type(e).__name__}: {e}")
     # ---------------- A ----------------
-    swA = driver.Stopwatch(job["budget_A"])
+    swA = driver.Stopwatch(job["budget_A"], max_credit=min(25.0, 0.5 * job["budget_A"]))
     i = job.get("start", 0)
     nA = 0
     while not swA.expired() and nA < job.get("max_runs", 10**9):
         key = f"{seed}/A/{op}/{i}"
         i += 1
         nA += 1
+        t_run = time.monotonic()
         try:
             rng, scn, cfg = gen_A(key, op)
             cache = {}
             rr = exec_A(scn, cfg, rng=rng, ref_cache=cache)
+            if time.monotonic() - t_run > 1.0:
+                swA.credit(time.monotonic() - t_run - 0.2)  # a numba specialisation was compiled
         except Exception as e:  # noqa: BLE001
             agg.d["harness"].append(f"{key}: {type(e).__name__}: {e}\n{traceback.format_exc()[-1500:]}")
             continue
